@@ -89,6 +89,27 @@ PROPS = {
         k_quick=['k_tagtype_roundtrip_all_u32', 'k_tagtype_id_wrapper_commutes', 'k_tagtype_equalities_agree', 'k_tagtype_custom_noncanonical', 'k_mbi_magic'],
         k_thorough=[],
     ),
+    'C09': dict(
+        v=[('u_hdr_core', ['Multiboot2Header::load', 'Multiboot2Header::iter', 'HeaderTagHeader::payload_len', 'HeaderTagHeader::lemma_hdr_layout',
+                           'Multiboot2BasicHeader::payload_len', 'Multiboot2BasicHeader::lemma_hdr_layout'] + COMMON_V_MEM + ['walk_collect'])],
+        k_quick=[], k_thorough=[],
+    ),
+    'C10': dict(
+        v=[('u_hdr_core', ['Multiboot2Header::load', 'Multiboot2BasicHeader::calc_checksum', 'Multiboot2BasicHeader::verify_checksum',
+                           'Multiboot2BasicHeader::length', 'Multiboot2BasicHeader::header_magic', 'Multiboot2BasicHeader::checksum',
+                           'Multiboot2BasicHeader::payload_len', 'DynSizedStructure::ref_from_ptr', 'DynSizedStructure::ref_from_slice',
+                           'DynSizedStructure::ref_from_bytes', 'BytesRef::try_from', 'Header::total_size'])],
+        k_quick=[], k_thorough=[],
+    ),
+    'C01': dict(
+        v=[('u_mb2_core', ['BootInformation::load', 'BootInformation::has_valid_end_tag', 'BootInformation::tags', 'TagHeader::payload_len',
+                           'BootInformationHeader::payload_len'] + COMMON_V_MEM + ['walk_collect']),
+           ('u_mb2_efi', ['EFIMemoryAreaIter::new', 'EFIMemoryAreaIter::next', 'EFIMemoryMapTag::memory_areas']),
+           ('u_mb2_elf', ['ElfSectionsTag::sections', 'elf::ElfSectionIter::next', 'elf::ElfSection::get', 'elf::ElfSection::section_type']),
+           ('u_mb2_fb', ['FramebufferTag::buffer_type', 'Reader::new', 'Reader::read_next_u8', 'Reader::read_next_u16', 'Reader::current_ptr',
+                         'FramebufferTypeId::try_from', '*Tag::dst_len'])],
+        k_quick=[], k_thorough=[],
+    ),
     'C14': dict(
         v=[('u_common', ['increase_to_alignment', 'lemma_round8_bv', 'lemma_round8_props', 'BytesRef::try_from',
                          'DynSizedStructure::ref_from_bytes', 'DynSizedStructure::ref_from_slice',
@@ -97,6 +118,39 @@ PROPS = {
         k_thorough=[],
     ),
 }
+
+# ---------------------------------------------------------------------------
+# Registry fragments (engine-K harness tables per area): every harness names the
+# properties it serves (`props`); `tier` = 'thorough' keeps slow ones out of the
+# quick run.
+# ---------------------------------------------------------------------------
+# slow harnesses (> ~20 s of solver time each) run in the thorough tier only
+THOROUGH_ONLY = {
+    'k_vbe_decode_control', 'k_vbe_decode_mode', 'k_vbe_new_control', 'k_vbe_new_mode',
+    'k_rsdpv1_signature', 'k_rsdpv2_signature', 'k_rsdpv1_oem_id', 'k_rsdpv2_oem_id',
+}
+
+
+def _merge(fragment_harnesses):
+    for name, spec in fragment_harnesses.items():
+        spec = dict(spec)
+        if name in THOROUGH_ONLY:
+            spec['tier'] = 'thorough'
+        HARNESSES[name] = spec
+        for pid in spec.get('props', []):
+            PROPS.setdefault(pid, dict(v=[], k_quick=[], k_thorough=[]))
+            key = 'k_thorough' if spec.get('tier') == 'thorough' else 'k_quick'
+            if name not in PROPS[pid][key]:
+                PROPS[pid][key].append(name)
+
+
+import importlib
+for _frag in ('registry_mb2_sized', 'registry_mb2_dst', 'registry_header', 'registry_extra'):
+    try:
+        _m = importlib.import_module(_frag)
+    except ModuleNotFoundError:
+        continue
+    _merge(_m.HARNESSES)
 
 PRELUDE_TRUST = [
     'contracts/verus/prelude.rs: pointer-extent model (assume_specification of <[T]>::as_ptr, <*const T>::{add,sub,cast,align_offset}, NonNull::{new,as_ptr}, cast_const/cast_mut; external_body deref_raw, read_raw, addr_of_ref, slice::from_raw_parts, bytes_from_raw_parts, vslice, vslice_from, mem::size_of_val, controlled_panic)',
